@@ -5,7 +5,7 @@ Cases: (a) exhaustive token sequences over an adversarial alphabet x a catalogue
 (b) random longer sequences, (c) single-fault mutants of well-formed lines (from the C01 generator)
 with the error class the statement demands.  Every case is parsed strict and lenient by the real
 parser and by the Lean model.  Where the format comes from is a dimension of its own: a fresh builder
-per format, or (`ext`) ONE builder that hands out the format, is then given more arguments/options and
+per format, or (`ext`) ONE builder that hands out the format, is then given more arguments / options / command names and
 hands out a second, richer format - the line is parsed against the first format afterwards, and the
 model parses against what that format listed when it was taken.
 """
@@ -58,7 +58,7 @@ RULE = ("(a) all token sequences up to length L (quick 2, thorough 3) over a 38-
         "sequence contains an option-like token or more positionals than the format takes; distinct = (format, tokens). "
         "Formats: built by a fresh builder, or (all catalogue formats x sequences up to L-1, 30 % of (b), 40 % of (c)) taken "
         "from a builder that is extended afterwards (further arguments where the ordering rules allow them, options spelled "
-        "like the unknown options of the faults) and has built a second format before the line is parsed")
+        "like the unknown options of the faults, command names with aliases spelled like the words the lines use) and has built a second format before the line is parsed")
 TRUSTED_BASE = [
     "Lean 4.33 kernel; axioms within propext, Classical.choice, Quot.sound (audited per theorem on every run)",
     "lean/Clikit/Model/Parser.lean: hand-written model of DefaultArgsParser/Args (modelled, not verified; tied by the correspondence)",
@@ -124,12 +124,14 @@ PREV = [[], ["alice", "bob", "-f", "--bar", "v"], ["p", "q", "-o7", "--num", "5"
 # what the builder of each catalogue format receives AFTER the format was taken from it (a second command's format
 # derived from the same builder): one more positional where the argument rules allow one, and options spelled like the
 # alphabet's unknown ones
-EXT = [{"cmds": [], "args": [_a("x1", "required")], "opts": [_o("unknown", "z", "flag")]},
-       {"cmds": [], "args": [_a("x1", "optional")], "opts": [_o("unknown", "z", "required")]},
-       {"cmds": [], "args": [], "opts": [_o("unknown", "z", "flag"), _o("foo", "f", "flag")]},
-       {"cmds": [], "args": [_a("x1", "optional"), _a("x2", "multi")], "opts": [_o("bar", "b", "required")]},
+EXT = [{"cmds": [{"name": "server", "aliases": ["srv"]}], "args": [_a("x1", "required")], "opts": [_o("unknown", "z", "flag")]},
+       {"cmds": [{"name": "abc", "aliases": ["x", "5"]}], "args": [_a("x1", "optional")], "opts": [_o("unknown", "z", "required")]},
+       {"cmds": [{"name": "x", "aliases": []}], "args": [], "opts": [_o("unknown", "z", "flag"), _o("foo", "f", "flag")]},
+       {"cmds": [{"name": "x", "aliases": ["abc"]}], "args": [_a("x1", "optional"), _a("x2", "multi")],
+        "opts": [_o("bar", "b", "required")]},
        {"cmds": [], "args": [], "opts": [_o("unknown", "z", "optional")]},
-       {"cmds": [], "args": [_a("x1", "required"), _a("x2", "optional")], "opts": [_o("unknown", "z", "flag")]},
+       {"cmds": [{"name": "server", "aliases": ["srv", "null"]}, {"name": "abc", "aliases": []}],
+        "args": [_a("x1", "required"), _a("x2", "optional")], "opts": [_o("unknown", "z", "flag")]},
        {"cmds": [], "args": [_a("x1", "optional")], "opts": [_o("unknown", "z", "flag"), _o("bar", "b", "flag")]}]
 
 
@@ -347,7 +349,7 @@ def shrink(case):
     ext = case.get("ext")
     if ext:
         # fewer additions to the builder after the format was taken (the fault class of a mutant is about `spec`)
-        for key in ("opts", "args"):
+        for key in ("opts", "args", "cmds"):
             for i in range(len(ext[key]) - 1, -1, -1):
                 e2 = dict(ext)
                 e2[key] = ext[key][:i] + ext[key][i + 1:]
